@@ -548,7 +548,7 @@ def check_forward(ctx, fb):
 
 
 def run(ctx):
-    fbs = ctx.facts(['KF'], kinds=('lib', 'probe'), only=r'p_std\.cpp$|src/fault/fiber/')
+    fbs = ctx.facts(['KF'], kinds=('lib', 'probe'), only=r'p_std\.cpp$|src/fault/fiber/', tests=r'/test/')
     fb = fbs['KF']
     ctx.assume('fibers are cooperative: a lock method is pre-empted only inside FiberQueue::Wait / InjectFault')
     ctx.assume('acquire/release API names are those of the std contracts (lock, try_lock*, lock_shared*, unlock*)')
